@@ -940,6 +940,8 @@ def r15_lhs_per_row_per_axis(repo: Repo, rep):
 
 
 def run(repo: Repo, rep):
+    from .c17 import r1_roundtrip  # the box of an evaluated domain is the box of the same set: every constructor argument (pivot!) is carried over by __call__
+    r1_roundtrip(repo, rep)
     r11_same_space_operands(repo, rep)
     r12_box_dtype(repo, rep)
     r13_user_box_order(repo, rep)
